@@ -5,12 +5,13 @@
     Client/Mux.v — every schedule of any number n of concurrent calls and every
     sequence of transport events (replies in any order, unknown tags, wrong
     types, receive errors, undecodable bodies, send failures).  The model is
-    instantiated with [wd := ClientGen.sendrecv_withdraws] (read from the
-    source: does sendRecv withdraw its pending entry when send fails) and with
-    [honest := true]: a frame carrying tag t is delivered only once the request
-    that registered t has been sent.  Without that restriction the model reaches
-    a nil dereference: C10_send_race_refuted (see /verif/fixes/C10-reply-during-failed-send.md). *)
-From Coq Require Import NArith Arith List Bool.
+    instantiated with what go2coq reads from the source (ClientGen): sendRecv
+    registers pending[t] before send, withdraws it when send fails (dca25c9) and
+    does not recycle the withdrawn response; handleOne completes only the
+    response its lookup accepted the frame for (79e8d00).  The peer is
+    ARBITRARY: frames with any tag may arrive at any time (replies to requests
+    never completely sent, duplicated or forged replies). *)
+From Coq Require Import NArith Arith List Bool String.
 From P9V Require Import gen.ConstGen gen.ClientGen Client.Pool Client.PoolProofs Client.Fids Client.Mux Client.MuxProofs.
 Import ListNotations.
 Open Scope nat_scope.
@@ -58,12 +59,14 @@ Proof.
 Qed.
 Print Assumptions C10_pool_exhausted.
 
-(** fid freshness: whatever the sequence of binding requests (answered or refused) and of
-    Close/Remove (confirmed or failed), a fid handed to a new File is not bound at the server *)
+(** fid freshness: whatever the sequence of binding requests (answered, refused, or failed in any
+    other way with the server having bound the fid or not) and of Close/Remove (confirmed or failed),
+    a fid handed to a new File is not bound at the server.  No assumption on how requests fail:
+    after anything but Rlerror the fid is leaked, never reused (commit 28ed22f). *)
 Theorem C10_fid_fresh : forall evs limit,
   (1 <= limit < two64)%N ->
   Forall (fun x => snd x = false /\ match fst x with Some f => (1 <= f < limit)%N | None => True end)
-         (fid_run (mkpool [] 1%N limit) [] [] evs).
+         (fid_run (String.eqb release_fid_policy "refused") (mkpool [] 1%N limit) [] [] evs).
 Proof.
   intros evs limit Hr. apply (fid_fresh 1%N evs (mkpool [] 1%N limit) [] []).
   - now apply pinv_init.
@@ -72,36 +75,63 @@ Proof.
 Qed.
 Print Assumptions C10_fid_fresh.
 
+(** with the former policy (Put after any failure) a bound fid is handed out again *)
+Theorem C10_fid_recycle_refuted :
+  fid_run false (mkpool [] 1%N 4294967295%N) [] [] [FBind (BLost true); FBind BOk] = [(Some 1%N, false); (Some 1%N, true)].
+Proof. exact fid_reuse_refuted. Qed.
+
 (** ---- multiplexing ---- *)
 
-(** the source withdraws (commit dca25c9); reverting it makes this obligation fail *)
-Lemma C10_source_withdraws : sendrecv_withdraws = true.
-Proof. reflexivity. Qed.
+(** what the source does; reverting dca25c9 / 79e8d00 (or registering after send) makes these obligations fail *)
+Lemma C10_source_shape :
+  sendrecv_registers_before_send = true /\ sendrecv_withdraws = true /\
+  sendrecv_keeps_withdrawn = true /\ handleone_checks_found = true.
+Proof. repeat split. Qed.
 
-Definition reachable (n : nat) (m : mst) : Prop := reach sendrecv_withdraws true n m.
+Definition reachable (n : nat) (m : mst) : Prop :=
+  reach sendrecv_withdraws sendrecv_keeps_withdrawn handleone_checks_found n m.
 
 Lemma reachable_inv n m : reachable n m -> Inv m.
-Proof. unfold reachable. rewrite C10_source_withdraws. apply reach_inv. Qed.
+Proof. exact (reach_inv n m). Qed.
 
 (** the invariant, in every reachable state: running calls hold pairwise distinct tags and response
     slots; every pending slot is owned by exactly one running call and its done channel is empty, so
-    no send on done ever blocks; at most one call holds the receive token *)
+    no send on done ever blocks; at most one call holds the receive token; a withdrawn slot is never
+    held again *)
 Theorem C10_invariant : forall n m, reachable n m -> Inv m.
 Proof. exact reachable_inv. Qed.
 Print Assumptions C10_invariant.
 
-(** no reachable state has a call blocked in a channel send or crashed *)
+(** no reachable state has a call blocked in a channel send or crashed — for an arbitrary peer
+    (this is the former C10_send_race_refuted turned positive) *)
 Theorem C10_never_blocked : forall n m i, reachable n m ->
   get (thr m) i <> TBlocked /\ get (thr m) i <> TPanic.
 Proof. intros n m i H. apply (I_good m (reachable_inv n m H)). Qed.
 Print Assumptions C10_never_blocked.
 
-(** routing: a call that returns a reply returns the frame that carried its own tag, decoded into its
-    own response slot; and while it waits, a value in its done channel is its own *)
-Theorem C10_route : forall n m i t s t' s', reachable n m ->
-  get (thr m) i = TDone t s (ROk t' s') -> t' = t /\ s' = s.
-Proof. intros n m i t s t' s' H Hd. exact (I_done m (reachable_inv n m H) _ _ _ _ Hd). Qed.
+(** a reply that arrives while its call withdraws is dropped; the receiver goes on, the call returns an error *)
+Theorem C10_send_race_harmless :
+  exists m, run true true true (init 2) trace_race = Some m /\ get (thr m) 1 = TWait 2 1 /\
+            get (thr m) 0 = TDone 1 0 RFail /\ token m = false.
+Proof. exact race_dropped. Qed.
+
+(** routing / no foreign data: a call that returns a reply returns the frame that carried its own tag,
+    decoded into the message object of its own response slot, which it held itself when the frame was
+    accepted — no call receives another call's data *)
+Theorem C10_route : forall n m i t s t' s' o, reachable n m ->
+  get (thr m) i = TDone t s (ROk t' s' o) -> t' = t /\ s' = s /\ o = i.
+Proof. intros n m i t s t' s' o H Hd. exact (I_done m (reachable_inv n m H) _ _ _ _ Hd). Qed.
 Print Assumptions C10_route.
+
+Theorem C10_no_foreign_data : forall n m i t s r, reachable n m ->
+  live (get (thr m) i) = Some (t, s) -> full m s = Some r -> routed i t s r.
+Proof.
+  intros n m i t s r H Hl Hf. pose proof (reachable_inv n m H) as HI.
+  destruct (I_live m HI _ _ _ Hl) as [Hin|(r' & Hf' & Hr)].
+  - destruct (I_pend m HI _ _ Hin). congruence.
+  - congruence.
+Qed.
+Print Assumptions C10_no_foreign_data.
 
 (** the reply wakes only the call that registered the tag: pending slots have exactly one owner *)
 Theorem C10_one_owner : forall n m t s i j, reachable n m -> In (t, s) (pend m) ->
@@ -113,41 +143,57 @@ Qed.
 
 (** fail-all *)
 Theorem C10_fail_all : forall n m a m', reachable n m -> fatal_action m a ->
-  step sendrecv_withdraws true m a = Some m' ->
+  step true true true m a = Some m' ->
   pend m' = [] /\ forall t0 s0, In (t0, s0) (pend m) -> full m' s0 = Some RFail.
-Proof. unfold reachable. rewrite C10_source_withdraws. exact fail_all. Qed.
+Proof. exact fail_all. Qed.
 Print Assumptions C10_fail_all.
 
 (** no-stuck *)
 Theorem C10_no_stuck : forall n m i t s, reachable n m -> get (thr m) i = TWait t s ->
-  (exists r, full m s = Some r /\ routed t s r /\ step true true m (AWaitDone i) <> None) \/
+  (exists r, full m s = Some r /\ routed i t s r /\ step true true true m (AWaitDone i) <> None) \/
   (In (t, s) (pend m) /\ full m s = None /\
-   ((token m = false /\ step true true m (AWaitToken i) <> None) \/
+   ((token m = false /\ step true true true m (AWaitToken i) <> None) \/
     (token m = true /\ exists j, j <> i /\ holder (get (thr m) j)))).
-Proof. unfold reachable. rewrite C10_source_withdraws. exact no_stuck. Qed.
+Proof. exact no_stuck. Qed.
 Print Assumptions C10_no_stuck.
 
-(** C10_later_fail is not proved in Coq (the model has no "connection dead" flag): _partial.
-    It is covered by the harness only (calls after a fatal fault must return an error). *)
+(** later calls fail: once the connection is dead (every send and every receive fails from then on —
+    [dead_forever]), a call that had not started can only return an error, whatever happens next *)
+Theorem C10_later_fail : forall n m i, reachable n m -> dead m = true -> get (thr m) i = TIdle ->
+  forall tr m' t s r, run true true true m tr = Some m' -> get (thr m') i = TDone t s r -> r = RFail.
+Proof. exact later_fail. Qed.
+Print Assumptions C10_later_fail.
 
-(** without the withdrawal (dca25c9 reverted) the broadcaster blocks for good on a recycled slot *)
+(** each fix is needed: without the withdrawal the broadcaster blocks for good on a recycled slot; without
+    the re-check in handleOne a nil *response is dereferenced; with the re-check but a recycled slot a new
+    call is completed with a reply decoded into another call's message *)
 Theorem C10_stale_entry_refuted :
-  exists m, run false true (init 2) trace_stale = Some m /\ get (thr m) 1 = TBlocked.
+  exists m, run false false true (init 2) trace_stale = Some m /\ get (thr m) 1 = TBlocked.
 Proof. exact stale_blocks. Qed.
 
-(** a reply carrying the tag of a call whose send is failing at that moment: nil dereference in handleOne *)
-Theorem C10_send_race_refuted :
-  exists m, run true false (init 2) trace_race = Some m /\ get (thr m) 1 = TPanic.
+Theorem C10_unchecked_completion_refuted :
+  exists m, run true false false (init 2) trace_race = Some m /\ get (thr m) 1 = TPanic.
 Proof. exact race_panics. Qed.
-Print Assumptions C10_send_race_refuted.
 
-(** the hypotheses are satisfiable: a reachable state with two calls in flight, one of them receiving *)
+Theorem C10_recycled_slot_refuted :
+  exists m, run true false true (init 3) trace_aba = Some m /\ get (thr m) 2 = TDone 1 0 (ROk 1 0 0).
+Proof. exact aba_foreign. Qed.
+Print Assumptions C10_recycled_slot_refuted.
+
+(** the hypotheses are satisfiable: a reachable state with two calls in flight, one of them receiving;
+    and a reachable dead state with an idle call *)
 Example C10_ex_reachable :
-  exists m, reachable 2 m /\ get (thr m) 0 = TRecv 1 0 /\ get (thr m) 1 = TWait 2 1 /\ length (pend m) = 2.
+  exists m, reachable 3 m /\ get (thr m) 0 = TRecv 1 0 /\ get (thr m) 1 = TWait 2 1 /\ List.length (pend m) = 2 /\
+            exists m2, reachable 3 m2 /\ dead m2 = true /\ get (thr m2) 2 = TIdle.
 Proof.
-  unfold reachable. rewrite C10_source_withdraws.
-  eexists. split.
+  eexists. split; [|split; [|split; [|split]]].
   - eapply run_reach with (tr := [AStart 0 1 0; AStart 1 2 1; ASendOk 0; ASendOk 1; AWaitToken 0]); [apply reach_init|].
     vm_compute. reflexivity.
-  - repeat split.
+  - reflexivity.
+  - reflexivity.
+  - reflexivity.
+  - eexists. split; [|split].
+    + eapply run_reach with (tr := [AStart 0 1 0; ASendOk 0; AKill]); [apply reach_init|]. vm_compute. reflexivity.
+    + reflexivity.
+    + reflexivity.
 Qed.
